@@ -413,7 +413,7 @@ def run(ctx, res):
         for lo, hi in core.split_range(len(r.outer), 48):
             tasks.append((ri, lo, hi))
     order = ctx.rot(range(len(tasks)))
-    accs = core.pool_map(_task, [tasks[i] for i in order])
+    accs = core.task_map(_task, [tasks[i] for i in order])
     accs = [a for _, a in sorted(zip(order, accs), key=lambda p: p[0])]
     tot = sweep.merge(accs)
     per = {}
@@ -449,3 +449,12 @@ def replay(case):
     except Exception as e:  # noqa
         return True, "raised %s: %s" % (type(e).__name__, e)
     return bool(diffs), ("differs: %r" % (diffs[:2],)) if diffs else "slots equal"
+
+
+def _setup_replay(case):
+    global _RELS
+    _RELS = relations(case.get("tier") or "quick")
+
+
+def replay_task(case):
+    return core.replay_func_task(case, _setup_replay)
